@@ -41,9 +41,18 @@ def load_sig(serialized):
     return ProjectSignature.deserialize(copy.deepcopy(serialized))
 
 
-def sig_equal(sig_a, sig_b):
+def sig_equal(sig_a, sig_b, ignore_upgrade_method=False):
     """Empty Diff in both directions (apps included)."""
     from django_evolution.diff import Diff
+    if ignore_upgrade_method:
+        # D1-level harness apps have no evolutions module (upgrade method
+        # None) while RenameAppLabel creates the app entry with
+        # upgrade_method='evolutions': not a schema difference.
+        sig_a, sig_b = sig_a.clone(), sig_b.clone()
+        for s in (sig_a, sig_b):
+            for a in s.app_sigs:
+                if a.upgrade_method in (None, 'evolutions'):
+                    a.upgrade_method = None
     d1 = Diff(sig_a, sig_b)
     d2 = Diff(sig_b, sig_a)
     ok = d1.is_empty(ignore_apps=False) and d2.is_empty(ignore_apps=False)
